@@ -173,6 +173,13 @@ def gen_case(r, tier):
             if r.chance(1, 3):
                 a, b = b, a
             c["fee_pairs"].append([str(a), str(b), r.choice(["0", "0.0025", "0.02", "0.000001", "0.5", "0.003333333333333333"])])
+    # taker-fee share agreements on some of the route's denoms (TakerFeeSkim fails a swap when they add up to > 100 %)
+    c["skim"] = []
+    if r.chance(1, 5):
+        ds = sorted(set([a for a, _ in route_pairs(run)] + [b for _, b in route_pairs(run)]))
+        for d in ds:
+            if r.chance(1, 2):
+                c["skim"].append([str(d), r.choice(["0.1", "0.3", "0.6", "0.5", "1", "0", "0.45"])])
     # funds: rich, except a small under-funded stream (with loose limits, so that only one check can fail)
     funds = [10 ** 30] * ND
     if r.chance(1, 12):
@@ -312,8 +319,8 @@ def coq_case(c, obs, sr, expect=None):
                                 for (a, b, n, x, amt, y, sp, ok, r1, r2) in table_of(sr["log"])) + "]"
     bal0 = "[" + "; ".join(zlist(row) for row in sr["bal0"]) + "]"
     ops = "[" + ";\n     ".join(coq_op(o) for o in sr["ops"]) + "]"
-    return "mkCase %d %s %s %s\n    %s\n    %s\n    %s\n    %s" % (
-        ND, zlist(obs["spreads"]), zlist(obs["fees"]), "true" if c["wl"] else "false", bal0, tbl, ops,
+    return "mkCase %d %s %s %s %s\n    %s\n    %s\n    %s\n    %s" % (
+        ND, zlist(obs["spreads"]), zlist(obs["fees"]), "true" if c["wl"] else "false", zlist(obs["skims"]), bal0, tbl, ops,
         zlist(expect if expect is not None else expect_of(sr)))
 
 
@@ -340,9 +347,13 @@ def oracle(c, obs):
     charged = (not c["wl"]) and not fees_zero          # does the trader pay a taker fee somewhere on the route?
     feecls = "nonzero" if charged else "zero"
 
+    rd = set([a for a, _ in pairs] + [b for _, b in pairs])
+    skim_total = sum(int(obs["skims"][d]) for d in rd if int(obs["skims"][d]) >= 0)
+    cause = "share_agreements_over_100" if skim_total > P18 else "other"
+
     def viol(k, what, **kw):
         rec = {"kind": k, "mode": kind, "taker_fee": feecls, "sender_whitelisted": "true" if c["wl"] else "false",
-               "route_taker_fee": "zero" if fees_zero else "nonzero"}
+               "route_taker_fee": "zero" if fees_zero else "nonzero", "cause": cause}
         rec.update(kw)
         v.append({"what": what, "rec": rec})
     # ---- limits: respected, or the whole swap fails without any balance change
@@ -602,7 +613,8 @@ SCOPE = ("proved for every pool interface (parametric model, axiom-free): route_
          "taker fee exactly rounded (floor / exact ceiling); split = sum of legs (iff); "
          "limits for all four messages (out >= min, in <= max incl. taker fee, else Err with state unchanged); estimates leave the state unchanged; "
          "estimate = execution for exact-in routes visiting each pool at most once and for ALL exact-out routes - for senders that pay the listed taker fee "
-         "(`_partial`); REFUTED for senders on the reduced-fee whitelist under a non-zero taker fee (open finding C05-F2) and, as documented, for repeated pools. "
+         "(`_partial`); REFUTED for senders on the reduced-fee whitelist under a non-zero taker fee (open finding C05-F2) and, as documented, for repeated pools; "
+         "message-level composition carries the TakerFeeSkim condition (share agreements of the route <= 100 %), refuted without it (open finding C05-F3). "
          "The two pool laws are hypotheses of the parametric theorems, proved for a concrete constant-product pool (C05/Instance.v) and measured on the real pools.")
 EXPLANATION = ("Gallina model C05/Model.v of x/poolmanager router.go / taker_fee.go / msg_server.go / types/routes.go + the pool-module wrapper of x/gamm/keeper/swap.go, "
                "parametric in the pool math (PoolIface). Tie to /repo: harness/routerdrv runs the real router on a second poolmanager.Keeper (exported NewKeeper over the "
@@ -614,7 +626,7 @@ TRUSTED = [
     "hand-written model coq/theories/C05/Model.v, tied to x/poolmanager + x/gamm/keeper/swap.go by the correspondence run (harness/routerdrv against /repo's working tree)",
     "harness/routerdrv (Go: recording proxies, probes on throw-away branches), props/c05.py (generator, table construction, oracle), Coq vm_compute evaluation of generated case files",
     "modelled not verified: SDK bank keeper (send = subtract then add, insufficient funds, invalid non-positive coin sets), CacheContext atomicity of messages (DESIGN 1.5)",
-    "not modelled: trackVolume, TakerFeeSkim accumulators (no taker-fee share agreements configured), events, gas, cosmwasm pools/hooks",
+    "not modelled: trackVolume, the accumulators bumped by TakerFeeSkim (its validation of the route's share agreements IS modelled; registered alloyed-asset pools assumed absent), events, gas, cosmwasm pools/hooks",
 ]
 ASSUMPTIONS = [
     "the pool math reads only the pool's own record (not bank balances) - true of balancer, stableswap and concentrated pools",
